@@ -1195,3 +1195,242 @@ Section FilterGrid.
       replace (Z.to_nat (x0 + Z.of_nat o + 4 - 4 - x0)) with o in E by lia. exact E.
   Qed.
 End FilterGrid.
+
+(** * doFilter's vertical passes: "for i := 0; i < width; i++ { off := base + i; ... p[off-4*bps] .. p[off+3*bps] ... }" *)
+Section FilterPassV.
+  Variables (S Ht : Z) (f : list Z -> list Z).
+  Hypothesis f_len : forall l, length l = 8%nat -> length (f l) = 8%nat.
+
+  Definition col_cells (c : list Z) (x y0 : Z) (len : nat) : list Z :=
+    map (fun k => cget S c x (y0 + Z.of_nat k)) (seq 0 len).
+
+  Lemma col_cells_length c x y0 len : length (col_cells c x y0 len) = len.
+  Proof. unfold col_cells. rewrite map_length, seq_length. reflexivity. Qed.
+
+  (** the samples of one column written back one by one (the code computes all new values from
+      the samples read before it stores any) *)
+  Fixpoint put_col (c : list Z) (x y : Z) (vals : list Z) : list Z :=
+    match vals with
+    | [] => c
+    | v :: tl => put_col (put_cells S c x y [v]) x (y + 1) tl
+    end.
+
+  Lemma put_col_length : forall vals c x y, length (put_col c x y vals) = length c.
+  Proof. induction vals as [|v tl IH]; intros c x y; cbn [put_col]; [reflexivity|]. rewrite IH. apply put_cells_length. Qed.
+
+  Lemma put_col_spec : forall vals c x y x' y',
+    length c = Z.to_nat (S * Ht) -> 0 <= x < S -> 0 <= y -> y + Z.of_nat (length vals) <= Ht ->
+    0 <= x' < S -> 0 <= y' < Ht ->
+    length (put_col c x y vals) = length c /\
+    cget S (put_col c x y vals) x' y' =
+      if (x' =? x) && (y <=? y') && (y' <? y + Z.of_nat (length vals)) then fget vals (y' - y) else cget S c x' y'.
+  Proof.
+    induction vals as [|v tl IH]; intros c x y x' y' Hlen Hx Hy Hyl Hx' Hy'; cbn [put_col length].
+    - split; [reflexivity|]. zb; try lia; reflexivity.
+    - cbn [length] in Hyl. rewrite Nat2Z.inj_succ in *.
+      assert (L1 : length (put_cells S c x y [v]) = Z.to_nat (S * Ht)) by (rewrite put_cells_length; exact Hlen).
+      destruct (IH (put_cells S c x y [v]) x (y + 1) x' y' L1 Hx ltac:(lia) ltac:(lia) Hx' Hy') as [L E].
+      split; [rewrite L, put_cells_length; reflexivity|]. rewrite E.
+      rewrite (put_cells_spec S Ht) by (cbn [length]; try assumption; lia). cbn [length]. change (Z.of_nat 1) with 1.
+      unfold fget.
+      destruct (Z.eqb_spec x' x) as [->|]; cbn [andb]; [|zb; try lia; reflexivity].
+      zb; try lia; try reflexivity.
+      + replace (Z.to_nat (y' - y)) with (Datatypes.S (Z.to_nat (y' - (y + 1)))) by lia. reflexivity.
+      + replace (y' - y) with 0 by lia. replace (x - x) with 0 by lia. reflexivity.
+  Qed.
+
+  Definition vpass (x0 ye n : Z) (c : list Z) : list Z :=
+    for_range 0 n (fun i c => put_col c (x0 + i) (ye - 4) (f (col_cells c (x0 + i) (ye - 4) 8))) c.
+
+  Lemma vpass_spec x0 ye n c x y : 0 <= x0 -> x0 + n <= S -> 4 <= ye -> ye + 4 <= Ht -> 0 <= n ->
+    length c = Z.to_nat (S * Ht) -> 0 <= x < S -> 0 <= y < Ht ->
+    length (vpass x0 ye n c) = length c /\
+    cget S (vpass x0 ye n c) x y =
+      if (x0 <=? x) && (x <? x0 + n) && (ye - 4 <=? y) && (y <? ye + 4)
+      then fget (f (col_cells c x (ye - 4) 8)) (y - (ye - 4)) else cget S c x y.
+  Proof.
+    intros Hx0 Hx0n Hye Hye2 Hn Hlen Hx Hy.
+    set (owns := fun i x y : Z => (x =? x0 + i) && (ye - 4 <=? y) && (y <? ye + 4)).
+    set (val := fun (i : Z) (c : list Z) (x y : Z) => fget (f (col_cells c x (ye - 4) 8)) (y - (ye - 4))).
+    set (body := fun i c => put_col c (x0 + i) (ye - 4) (f (col_cells c (x0 + i) (ye - 4) 8))).
+    assert (Hf8 : forall c x1 y1, length (f (col_cells c x1 y1 8)) = 8%nat) by (intros; apply f_len, col_cells_length).
+    assert (Hu : forall v v' x y, 0 <= v < n -> 0 <= v' < n -> owns v x y = true -> owns v' x y = true -> v = v').
+    { unfold owns. intros v v' x1 y1 _ _ H1 H2. rewrite !andb_true_iff, Z.eqb_eq in H1, H2. lia. }
+    assert (Hl : forall v c, length (body v c) = length c) by (intros; apply put_col_length).
+    assert (Hs : forall v c x y, 0 <= v < n -> length c = Z.to_nat (S * Ht) -> 0 <= x < S -> 0 <= y < Ht ->
+                 cget S (body v c) x y = if owns v x y then val v c x y else cget S c x y).
+    { intros i c1 x1 y1 Hi Hl1 Hx1 Hy1. unfold body, owns, val.
+      rewrite (proj2 (put_col_spec _ c1 (x0 + i) (ye - 4) x1 y1 Hl1 ltac:(lia) ltac:(lia) ltac:(rewrite Hf8; lia) Hx1 Hy1)).
+      rewrite Hf8. change (Z.of_nat 8) with 8. replace (ye - 4 + 8) with (ye + 4) by lia.
+      destruct (Z.eqb_spec x1 (x0 + i)) as [->|]; reflexivity. }
+    assert (Hfr : forall v c c' x y, 0 <= v < n -> 0 <= x < S -> 0 <= y < Ht -> owns v x y = true ->
+      (forall x' y', 0 <= x' < S -> 0 <= y' < Ht -> (forall u, 0 <= u < n -> u <> v -> owns u x' y' = false) ->
+                     cget S c x' y' = cget S c' x' y') -> val v c x y = val v c' x y).
+    { intros v c1 c2 x1 y1 Hv Hx1 Hy1 Ho Hsame. unfold val. unfold owns in Ho.
+      rewrite !andb_true_iff, Z.eqb_eq in Ho. destruct Ho as [[Ho1 _] _]. do 2 f_equal.
+      unfold col_cells. apply map_ext_in. intros k Hk. apply in_seq in Hk.
+      apply Hsame; [lia|lia|]. intros u Hu' Hne. unfold owns.
+      replace (x1 =? x0 + u) with false by (symmetry; apply Z.eqb_neq; lia). reflexivity. }
+    unfold vpass, for_range. replace (n - 0) with n by lia.
+    destruct (loop_spec S Ht 0 n owns val body Hu Hl Hs Hfr (Z.to_nat n) 0 c x y ltac:(lia) ltac:(lia) Hlen Hx Hy)
+      as (L & A & B).
+    fold body. split; [exact L|].
+    destruct ((x0 <=? x) && (x <? x0 + n) && (ye - 4 <=? y) && (y <? ye + 4)) eqn:E.
+    - rewrite !andb_true_iff, !Z.leb_le, !Z.ltb_lt in E.
+      rewrite (A (x - x0)); [reflexivity|lia|]. unfold owns.
+      rewrite !andb_true_iff, Z.eqb_eq, Z.leb_le, Z.ltb_lt. lia.
+    - apply B. intros v Hv. unfold owns. destruct (Z.eqb_spec x (x0 + v)) as [->|]; [|reflexivity]. cbn [andb].
+      destruct ((ye - 4 <=? y) && (y <? ye + 4)) eqn:E2; [|reflexivity].
+      assert (Ea : (x0 <=? x0 + v) = true) by (apply Z.leb_le; lia).
+      assert (Eb : (x0 + v <? x0 + n) = true) by (apply Z.ltb_lt; lia).
+      rewrite <- andb_assoc, E2, Ea, Eb in E. discriminate E.
+  Qed.
+
+  Lemma nth_col_cells c x y0 len m : (m < len)%nat -> nth m (col_cells c x y0 len) 0 = cget S c x (y0 + Z.of_nat m).
+  Proof.
+    intros Hm. unfold col_cells. set (g := fun k : nat => cget S c x (y0 + Z.of_nat k)).
+    rewrite (nth_indep _ 0 (g 0%nat)) by (rewrite map_length, seq_length; lia).
+    rewrite map_nth, seq_nth by lia. reflexivity.
+  Qed.
+
+  (** on every column of the band, any segment of the column that contains the window is rewritten
+      by apply_win at the window's position in the segment *)
+  Theorem vpass_col x0 ye n c i ys len :
+    0 <= x0 -> x0 + n <= S -> 4 <= ye -> ye + 4 <= Ht -> length c = Z.to_nat (S * Ht) ->
+    0 <= i < n -> 0 <= ys -> ys <= ye - 4 -> ye + 4 <= ys + Z.of_nat len -> ys + Z.of_nat len <= Ht ->
+    col_cells (vpass x0 ye n c) (x0 + i) ys len =
+    apply_win f (Z.to_nat (ye - 4 - ys)) (col_cells c (x0 + i) ys len).
+  Proof.
+    intros Hx0 Hx0n Hye Hye2 Hlen Hi Hys Hys2 Hyl HyH.
+    assert (Lr : forall c', length (col_cells c' (x0 + i) ys len) = len) by (intros; apply col_cells_length).
+    assert (Lw : length (apply_win f (Z.to_nat (ye - 4 - ys)) (col_cells c (x0 + i) ys len)) = len).
+    { unfold apply_win. rewrite !app_length, firstn_length, skipn_length, Lr.
+      rewrite f_len by (rewrite firstn_length, skipn_length, Lr; lia). lia. }
+    apply nth_ext with (d := 0) (d' := 0); [rewrite Lr, Lw; reflexivity|].
+    intros m Hm. rewrite Lr in Hm.
+    rewrite (nth_apply_win f f_len) by (rewrite Lr; lia).
+    rewrite !nth_col_cells by exact Hm.
+    rewrite (proj2 (vpass_spec x0 ye n c (x0 + i) (ys + Z.of_nat m) Hx0 Hx0n Hye Hye2 ltac:(lia) Hlen ltac:(lia) ltac:(lia))).
+    replace (x0 <=? x0 + i) with true by (symmetry; apply Z.leb_le; lia).
+    replace (x0 + i <? x0 + n) with true by (symmetry; apply Z.ltb_lt; lia). cbn [andb].
+    assert (Ewin : firstn 8 (skipn (Z.to_nat (ye - 4 - ys)) (col_cells c (x0 + i) ys len)) = col_cells c (x0 + i) (ye - 4) 8).
+    { apply nth_ext with (d := 0) (d' := 0).
+      - rewrite firstn_length, skipn_length, Lr, col_cells_length. lia.
+      - intros k Hk. rewrite firstn_length, skipn_length, Lr in Hk.
+        rewrite nth_firstn_lt by lia. rewrite nth_skipn_add. rewrite !nth_col_cells by lia. f_equal. lia. }
+    rewrite Ewin.
+    destruct (Z.leb_spec (ye - 4) (ys + Z.of_nat m)) as [H1|H1];
+      destruct (Nat.leb_spec (Z.to_nat (ye - 4 - ys)) m) as [H1'|H1']; try lia; cbn [andb]; try reflexivity.
+    destruct (Z.ltb_spec (ys + Z.of_nat m) (ye + 4)) as [H2|H2];
+      destruct (Nat.ltb_spec m (Z.to_nat (ye - 4 - ys) + 8)) as [H2'|H2']; try lia; try reflexivity.
+    unfold fget. f_equal. lia.
+  Qed.
+End FilterPassV.
+
+(** * the vertical pass against the grid model's edge_v (stated there through transposition) *)
+Section FilterGridV.
+  Variables (S Ht : Z) (f : list Z -> list Z).
+  Hypothesis f_len : forall l, length l = 8%nat -> length (f l) = 8%nat.
+
+  Lemma transpose_aux_grid (g : nat -> nat -> Z) (h : nat) : forall w a,
+    transpose_aux w (map (fun j => map (fun i => g i j) (seq a w)) (seq 0 h)) =
+    map (fun i => map (fun j => g i j) (seq 0 h)) (seq a w).
+  Proof.
+    induction w as [|w IH]; intros a; [reflexivity|].
+    cbn [transpose_aux seq map]. rewrite !map_map. cbn [hd tl]. f_equal. apply IH.
+  Qed.
+
+  Lemma transpose_grid (g : nat -> nat -> Z) (w h : nat) : (0 < h)%nat ->
+    transpose (map (fun j => map (fun i => g i j) (seq 0 w)) (seq 0 h)) =
+    map (fun i => map (fun j => g i j) (seq 0 h)) (seq 0 w).
+  Proof.
+    intros Hh. unfold transpose.
+    replace (length (hd [] (map (fun j => map (fun i => g i j) (seq 0 w)) (seq 0 h)))) with w.
+    - apply transpose_aux_grid.
+    - destruct h as [|h]; [lia|]. cbn [seq map hd]. rewrite map_length, seq_length. reflexivity.
+  Qed.
+
+  (** w columns, h rows at cell (x0, y0) *)
+  Definition rect_at (c : list Z) (x0 y0 : Z) (w h : nat) : list (list Z) :=
+    map (fun j => row_cells S c x0 (y0 + Z.of_nat j) w) (seq 0 h).
+
+  Lemma rect_at_split c x0 y0 w h1 h2 :
+    rect_at c x0 y0 w (h1 + h2) = rect_at c x0 y0 w h1 ++ rect_at c x0 (y0 + Z.of_nat h1) w h2.
+  Proof.
+    unfold rect_at. rewrite seq_app, map_app. f_equal. cbn [Nat.add]. rewrite (map_seq_shift h2 h1).
+    apply map_ext. intros k. f_equal. lia.
+  Qed.
+
+  Lemma rect_at_length c x0 y0 w h : length (rect_at c x0 y0 w h) = h.
+  Proof. unfold rect_at. rewrite map_length, seq_length. reflexivity. Qed.
+
+  (** macroblock edge: filterLoop26VAt / SimpleVFilter16 at base = mbY*n*stride + mbX*n, i.e. the
+      horizontal edge at row ye between the block above and the current block *)
+  Theorem vpass_edge_v x0 ye (n : nat) c :
+    (4 <= n)%nat -> 0 <= x0 -> x0 + Z.of_nat n <= S -> Z.of_nat n <= ye -> ye + Z.of_nat n <= Ht ->
+    length c = Z.to_nat (S * Ht) ->
+    let c' := vpass S f x0 ye (Z.of_nat n) c in
+    (block_at S c' x0 (ye - Z.of_nat n) n, block_at S c' x0 ye n) =
+    edge_v n f (block_at S c x0 (ye - Z.of_nat n) n) (block_at S c x0 ye n).
+  Proof.
+    intros Hn Hx0 Hx0n Hye Hyen Hlen. cbv zeta. unfold edge_v.
+    set (c' := vpass S f x0 ye (Z.of_nat n) c).
+    assert (Hstack : forall b, block_at S b x0 (ye - Z.of_nat n) n ++ block_at S b x0 ye n = rect_at b x0 (ye - Z.of_nat n) n (n + n)).
+    { intros b. rewrite rect_at_split. unfold block_at, rect_at. f_equal.
+      apply map_ext. intros j. f_equal. lia. }
+    rewrite Hstack.
+    assert (Hgrid : forall b, rect_at b x0 (ye - Z.of_nat n) n (n + n) =
+              map (fun j => map (fun i => cget S b (x0 + Z.of_nat i) (ye - Z.of_nat n + Z.of_nat j)) (seq 0 n)) (seq 0 (n + n)))
+      by reflexivity.
+    rewrite (Hgrid c), transpose_grid by lia. rewrite map_map.
+    assert (Hcols : map (fun i => apply_win f (n - 4) (map (fun j => cget S c (x0 + Z.of_nat i) (ye - Z.of_nat n + Z.of_nat j)) (seq 0 (n + n)))) (seq 0 n) =
+                    map (fun i => map (fun j => cget S c' (x0 + Z.of_nat i) (ye - Z.of_nat n + Z.of_nat j)) (seq 0 (n + n))) (seq 0 n)).
+    { apply map_ext_in. intros i Hi. apply in_seq in Hi.
+      pose proof (vpass_col S Ht f f_len x0 ye (Z.of_nat n) c (Z.of_nat i) (ye - Z.of_nat n) (n + n)
+                    Hx0 Hx0n ltac:(lia) ltac:(lia) Hlen ltac:(lia) ltac:(lia) ltac:(lia) ltac:(lia) ltac:(lia)) as E.
+      replace (Z.to_nat (ye - 4 - (ye - Z.of_nat n))) with (n - 4)%nat in E by lia.
+      symmetry. exact E. }
+    rewrite Hcols, (transpose_grid (fun j i => cget S c' (x0 + Z.of_nat i) (ye - Z.of_nat n + Z.of_nat j)) (n + n) n) by lia.
+    change (map (fun i => map (fun j => cget S c' (x0 + Z.of_nat j) (ye - Z.of_nat n + Z.of_nat i)) (seq 0 n)) (seq 0 (n + n)))
+      with (rect_at c' x0 (ye - Z.of_nat n) n (n + n)).
+    rewrite <- Hstack.
+    assert (Lb : forall b y1, length (block_at S b x0 y1 n) = n) by (intros; unfold block_at; rewrite map_length, seq_length; reflexivity).
+    rewrite firstn_app, skipn_app, !Lb, Nat.sub_diag.
+    rewrite firstn_all2 by (rewrite Lb; lia).
+    rewrite skipn_all2 by (rewrite Lb; lia).
+    cbn [firstn skipn app]. rewrite app_nil_r. reflexivity.
+  Qed.
+
+  (** inner edges: vFilter16iAt / vFilter8iAt / SimpleVFilter16i: "for k := 1; k <= 3; k++ { filterLoop24VAt(p, base+k*4*bps, ...) }" *)
+  Definition vpasses (x0 y0 : Z) (n : nat) (offs : list nat) (c : list Z) : list Z :=
+    fold_left (fun c o => vpass S f x0 (y0 + Z.of_nat o + 4) (Z.of_nat n) c) offs c.
+
+  Theorem vpasses_inner_v x0 y0 (n : nat) : (0 < n)%nat -> 0 <= x0 -> x0 + Z.of_nat n <= S -> 0 <= y0 -> y0 + Z.of_nat n <= Ht ->
+    forall offs c, Forall (fun o => (o + 8 <= n)%nat) offs -> length c = Z.to_nat (S * Ht) ->
+    block_at S (vpasses x0 y0 n offs c) x0 y0 n = inner_v f offs (block_at S c x0 y0 n).
+  Proof.
+    intros Hn Hx0 Hx0n Hy0 Hy0n.
+    set (cols := fun b : list Z => map (fun i => col_cells S b (x0 + Z.of_nat i) y0 n) (seq 0 n)).
+    assert (Hcols : forall offs c, Forall (fun o => (o + 8 <= n)%nat) offs -> length c = Z.to_nat (S * Ht) ->
+              cols (vpasses x0 y0 n offs c) = map (apply_wins f offs) (cols c)).
+    { induction offs as [|o tl IH]; intros c Ho Hlen.
+      - cbn [vpasses fold_left apply_wins]. rewrite map_id. reflexivity.
+      - pose proof (Forall_inv Ho) as Ho1. cbv beta in Ho1.
+        assert (L1 : length (vpass S f x0 (y0 + Z.of_nat o + 4) (Z.of_nat n) c) = Z.to_nat (S * Ht)).
+        { rewrite (proj1 (vpass_spec S Ht f f_len x0 (y0 + Z.of_nat o + 4) (Z.of_nat n) c 0 0
+                            Hx0 Hx0n ltac:(lia) ltac:(lia) ltac:(lia) Hlen ltac:(lia) ltac:(lia))). exact Hlen. }
+        cbn [vpasses fold_left]. fold (vpasses x0 y0 n tl (vpass S f x0 (y0 + Z.of_nat o + 4) (Z.of_nat n) c)).
+        rewrite (IH _ (Forall_inv_tail Ho) L1). unfold cols. rewrite !map_map.
+        apply map_ext_in. intros i Hi. apply in_seq in Hi. cbn [apply_wins]. f_equal.
+        pose proof (vpass_col S Ht f f_len x0 (y0 + Z.of_nat o + 4) (Z.of_nat n) c (Z.of_nat i) y0 n
+                      Hx0 Hx0n ltac:(lia) ltac:(lia) Hlen ltac:(lia) Hy0 ltac:(lia) ltac:(lia) ltac:(lia)) as E.
+        replace (Z.to_nat (y0 + Z.of_nat o + 4 - 4 - y0)) with o in E by lia. exact E. }
+    intros offs c Ho Hlen. unfold inner_v.
+    assert (Hb : forall b, block_at S b x0 y0 n =
+              map (fun j => map (fun i => cget S b (x0 + Z.of_nat i) (y0 + Z.of_nat j)) (seq 0 n)) (seq 0 n)) by reflexivity.
+    assert (Hc : forall b, cols b = map (fun i => map (fun j => cget S b (x0 + Z.of_nat i) (y0 + Z.of_nat j)) (seq 0 n)) (seq 0 n)) by reflexivity.
+    rewrite (Hb c), transpose_grid by exact Hn. rewrite <- Hc, <- (Hcols offs c Ho Hlen), Hc.
+    rewrite (transpose_grid (fun j i => cget S (vpasses x0 y0 n offs c) (x0 + Z.of_nat i) (y0 + Z.of_nat j)) n n) by exact Hn.
+    reflexivity.
+  Qed.
+End FilterGridV.
